@@ -7,7 +7,8 @@ FUNCTIONS = ["PointCloudWriter::{new,add_point,finalize}: bounds bookkeeping and
 ASSUME = [
     "for each concrete prototype shape and symbolic non-NaN values: every Cartesian bound equals the min / max of ITS OWN attribute as a real value (scaled integers after scale and offset), "
     "the bound groups are present exactly for the groups in the prototype, and they are carried unchanged into the descriptor registered by finalize",
-    "1 point per run (bounds = the value; routing of every attribute to ITS OWN bound); thorough adds 0 points and a 2-point run over an xyz-double prototype (min/max over the points, every ordering a symbolic path); "
+    "1 point per run (bounds = the value; routing of every attribute to ITS OWN bound) plus, in both tiers, a 2-point run over a spherical all-double prototype "
+    "(min vs max of each spherical attribute told apart; every ordering a symbolic path); thorough adds 0 points and a 2-point run over an xyz-double prototype (min/max over the points, every ordering a symbolic path); "
     "min/max accumulation over any number of points rests on update_min / update_max, decided for all f64 / i64 values (Kani)",
     "default limits equal the declared type range for all four type kinds and all i64 / float limit values (Kani); a caller's override is stored by a plain setter (not checked)",
     "spherical and row/column/return-index bounds: prototype spherical(double, single, scaled) + RowIndex + ColumnIndex + ReturnIndex/ReturnCount, and a Cartesian prototype with a scaled-integer component "
@@ -18,7 +19,7 @@ ASSUME = [
 def run(ctx):
     from mirsym import spec_pcw
     tier = ctx["tier"]
-    obls, samples = mlane.run_scenarios("C14", "O14", spec_pcw.scenarios(tier) + spec_pcw.bounds_scenarios(tier), ctx, "concrete prototype shapes, symbolic non-NaN values, 1 (quick) / 0,2,3 (thorough) points")
+    obls, samples = mlane.run_scenarios("C14", "O14", spec_pcw.scenarios(tier) + spec_pcw.bounds_scenarios(tier), ctx, "concrete prototype shapes, symbolic non-NaN values, 1 point (+ 2 points spherical double) quick / 0,2,3 points thorough")
     obls += kp.run_k("C14", "c14", kp.F_PCW, kp.pcw_bounds_specs(tier), ctx)
     return dict(obligations=obls, functions=FUNCTIONS, assumptions=ASSUME, samples=samples,
                 extra={"engine": "mirsym (MIR -> z3 5.1) + Kani 0.68", "mir_regenerated_from": "/repo working tree"})
